@@ -160,3 +160,263 @@ func (a *Value) Store(v any) {
 	vsched.Mutated()
 	a.v = v
 }
+
+// Pointer mirrors atomic.Pointer[T].
+type Pointer[T any] struct {
+	p *T
+}
+
+func (a *Pointer[T]) Load() *T {
+	vsched.Op("atomic.Pointer.Load", o(unsafe.Pointer(&a.p)), vsched.RD|vsched.ACQ, nil)
+	note(unsafe.Pointer(&a.p), false)
+	return a.p
+}
+func (a *Pointer[T]) Store(v *T) {
+	vsched.Op("atomic.Pointer.Store", o(unsafe.Pointer(&a.p)), vsched.WR|vsched.REL, nil)
+	note(unsafe.Pointer(&a.p), true)
+	if a.p != v {
+		vsched.Mutated()
+	}
+	a.p = v
+}
+func (a *Pointer[T]) Swap(v *T) *T {
+	vsched.Op("atomic.Pointer.Swap", o(unsafe.Pointer(&a.p)), all, nil)
+	note(unsafe.Pointer(&a.p), true)
+	old := a.p
+	a.p = v
+	vsched.Mutated()
+	return old
+}
+func (a *Pointer[T]) CompareAndSwap(old, new *T) bool {
+	vsched.Op("atomic.Pointer.CAS", o(unsafe.Pointer(&a.p)), all, nil)
+	note(unsafe.Pointer(&a.p), true)
+	if a.p == old {
+		a.p = new
+		vsched.Mutated()
+		return true
+	}
+	return false
+}
+
+// Uint32 / Uint64 / Uintptr-free subset used by Go code written against go1.19+ typed atomics.
+type Uint32 struct{ v uint32 }
+
+func (a *Uint32) Load() uint32                    { return LoadUint32(&a.v) }
+func (a *Uint32) Store(v uint32)                  { StoreUint32(&a.v, v) }
+func (a *Uint32) CompareAndSwap(o, n uint32) bool { return CompareAndSwapUint32(&a.v, o, n) }
+func (a *Uint32) Add(d uint32) uint32 {
+	vsched.Op("atomic.AddU32", o(unsafe.Pointer(&a.v)), all, nil)
+	note(unsafe.Pointer(&a.v), true)
+	a.v += d
+	vsched.Mutated()
+	return a.v
+}
+
+func (a *Int64) Swap(n int64) int64 {
+	vsched.Op("atomic.Swap64", o(unsafe.Pointer(&a.v)), all, nil)
+	note(unsafe.Pointer(&a.v), true)
+	old := a.v
+	a.v = n
+	vsched.Mutated()
+	return old
+}
+
+// ---- the rest of the sync/atomic surface (so that any change to the library still builds) ----
+
+func rmw(name string, p unsafe.Pointer) {
+	vsched.Op(name, o(p), all, nil)
+	note(p, true)
+	vsched.Mutated()
+}
+func ld(name string, p unsafe.Pointer) {
+	vsched.Op(name, o(p), vsched.RD|vsched.ACQ, nil)
+	note(p, false)
+}
+func st(name string, p unsafe.Pointer) {
+	vsched.Op(name, o(p), vsched.WR|vsched.REL, nil)
+	note(p, true)
+	vsched.Mutated()
+}
+
+func AddUint32(p *uint32, d uint32) uint32 {
+	rmw("atomic.AddU32", unsafe.Pointer(p))
+	*p += d
+	return *p
+}
+func AddUint64(p *uint64, d uint64) uint64 {
+	rmw("atomic.AddU64", unsafe.Pointer(p))
+	*p += d
+	return *p
+}
+func AddUintptr(p *uintptr, d uintptr) uintptr {
+	rmw("atomic.AddUptr", unsafe.Pointer(p))
+	*p += d
+	return *p
+}
+func LoadUint64(p *uint64) uint64    { ld("atomic.LoadU64", unsafe.Pointer(p)); return *p }
+func LoadUintptr(p *uintptr) uintptr { ld("atomic.LoadUptr", unsafe.Pointer(p)); return *p }
+func LoadPointer(p *unsafe.Pointer) unsafe.Pointer {
+	ld("atomic.LoadPointer", unsafe.Pointer(p))
+	return *p
+}
+func StoreUint64(p *uint64, v uint64)    { st("atomic.StoreU64", unsafe.Pointer(p)); *p = v }
+func StoreUintptr(p *uintptr, v uintptr) { st("atomic.StoreUptr", unsafe.Pointer(p)); *p = v }
+func StorePointer(p *unsafe.Pointer, v unsafe.Pointer) {
+	st("atomic.StorePointer", unsafe.Pointer(p))
+	*p = v
+}
+func SwapInt64(p *int64, v int64) int64 {
+	rmw("atomic.Swap64", unsafe.Pointer(p))
+	old := *p
+	*p = v
+	return old
+}
+func SwapUint32(p *uint32, v uint32) uint32 {
+	rmw("atomic.SwapU32", unsafe.Pointer(p))
+	old := *p
+	*p = v
+	return old
+}
+func SwapUint64(p *uint64, v uint64) uint64 {
+	rmw("atomic.SwapU64", unsafe.Pointer(p))
+	old := *p
+	*p = v
+	return old
+}
+func SwapUintptr(p *uintptr, v uintptr) uintptr {
+	rmw("atomic.SwapUptr", unsafe.Pointer(p))
+	old := *p
+	*p = v
+	return old
+}
+func SwapPointer(p *unsafe.Pointer, v unsafe.Pointer) unsafe.Pointer {
+	rmw("atomic.SwapPointer", unsafe.Pointer(p))
+	old := *p
+	*p = v
+	return old
+}
+func CompareAndSwapUint64(p *uint64, old, new uint64) bool {
+	rmw("atomic.CASU64", unsafe.Pointer(p))
+	if *p == old {
+		*p = new
+		return true
+	}
+	return false
+}
+func CompareAndSwapUintptr(p *uintptr, old, new uintptr) bool {
+	rmw("atomic.CASUptr", unsafe.Pointer(p))
+	if *p == old {
+		*p = new
+		return true
+	}
+	return false
+}
+func CompareAndSwapPointer(p *unsafe.Pointer, old, new unsafe.Pointer) bool {
+	rmw("atomic.CASPointer", unsafe.Pointer(p))
+	if *p == old {
+		*p = new
+		return true
+	}
+	return false
+}
+func AndInt32(p *int32, m int32) int32 {
+	rmw("atomic.And32", unsafe.Pointer(p))
+	o := *p
+	*p &= m
+	return o
+}
+func AndInt64(p *int64, m int64) int64 {
+	rmw("atomic.And64", unsafe.Pointer(p))
+	o := *p
+	*p &= m
+	return o
+}
+func AndUint32(p *uint32, m uint32) uint32 {
+	rmw("atomic.AndU32", unsafe.Pointer(p))
+	o := *p
+	*p &= m
+	return o
+}
+func AndUint64(p *uint64, m uint64) uint64 {
+	rmw("atomic.AndU64", unsafe.Pointer(p))
+	o := *p
+	*p &= m
+	return o
+}
+func AndUintptr(p *uintptr, m uintptr) uintptr {
+	rmw("atomic.AndUptr", unsafe.Pointer(p))
+	o := *p
+	*p &= m
+	return o
+}
+func OrInt32(p *int32, m int32) int32 {
+	rmw("atomic.Or32", unsafe.Pointer(p))
+	o := *p
+	*p |= m
+	return o
+}
+func OrInt64(p *int64, m int64) int64 {
+	rmw("atomic.Or64", unsafe.Pointer(p))
+	o := *p
+	*p |= m
+	return o
+}
+func OrUint32(p *uint32, m uint32) uint32 {
+	rmw("atomic.OrU32", unsafe.Pointer(p))
+	o := *p
+	*p |= m
+	return o
+}
+func OrUint64(p *uint64, m uint64) uint64 {
+	rmw("atomic.OrU64", unsafe.Pointer(p))
+	o := *p
+	*p |= m
+	return o
+}
+func OrUintptr(p *uintptr, m uintptr) uintptr {
+	rmw("atomic.OrUptr", unsafe.Pointer(p))
+	o := *p
+	*p |= m
+	return o
+}
+
+type Uint64 struct{ v uint64 }
+
+func (a *Uint64) Load() uint64                    { return LoadUint64(&a.v) }
+func (a *Uint64) Store(v uint64)                  { StoreUint64(&a.v, v) }
+func (a *Uint64) Add(d uint64) uint64             { return AddUint64(&a.v, d) }
+func (a *Uint64) Swap(v uint64) uint64            { return SwapUint64(&a.v, v) }
+func (a *Uint64) CompareAndSwap(o, n uint64) bool { return CompareAndSwapUint64(&a.v, o, n) }
+func (a *Uint32) Swap(v uint32) uint32            { return SwapUint32(&a.v, v) }
+
+type Uintptr struct{ v uintptr }
+
+func (a *Uintptr) Load() uintptr                    { return LoadUintptr(&a.v) }
+func (a *Uintptr) Store(v uintptr)                  { StoreUintptr(&a.v, v) }
+func (a *Uintptr) Add(d uintptr) uintptr            { return AddUintptr(&a.v, d) }
+func (a *Uintptr) Swap(v uintptr) uintptr           { return SwapUintptr(&a.v, v) }
+func (a *Uintptr) CompareAndSwap(o, n uintptr) bool { return CompareAndSwapUintptr(&a.v, o, n) }
+
+func (a *Bool) Swap(n bool) bool {
+	var nv int32
+	if n {
+		nv = 1
+	}
+	return SwapInt32(&a.v, nv) != 0
+}
+func (a *Value) Swap(v any) any {
+	vsched.Op("atomic.Value.Swap", o(unsafe.Pointer(&a.set)), all, nil)
+	vsched.Mutated()
+	old := a.v
+	a.v = v
+	return old
+}
+func (a *Value) CompareAndSwap(old, new any) bool {
+	vsched.Op("atomic.Value.CAS", o(unsafe.Pointer(&a.set)), all, nil)
+	if a.v == old {
+		a.v = new
+		vsched.Mutated()
+		return true
+	}
+	return false
+}
